@@ -11,6 +11,7 @@ import (
 	"runtime"
 	"runtime/debug"
 	"sort"
+	"time"
 
 	hook "github.com/pion/rtcp/zz_simhook"
 )
@@ -89,6 +90,7 @@ func sigOf(s *RunSpec, rec []SwRec) uint64 {
 
 // executeRun performs one run and returns its report and violations.
 func executeRun(s *RunSpec, runIdx int, racePath string) (doneEv, *violEv) {
+	t0 := time.Now() // wall time is reported only; it never feeds a decision
 	var pre *world
 	if s.PreRef && !s.Cold {
 		pre = runReference(s)
@@ -167,7 +169,9 @@ func executeRun(s *RunSpec, runIdx int, racePath string) (doneEv, *violEv) {
 	d.Faults["reorder_planned"] = s.Plan.Reorder
 	d.Faults["burst_planned"] = s.Plan.Burst
 	d.Faults["mutate_planned"] = s.Plan.BadValue
+	d.Faults["repad_planned"] = s.Plan.Repad
 	d.Faults["malformed_results"] = d.Errs
+	d.WallMs = time.Since(t0).Milliseconds()
 	d.Sig = fmt.Sprintf("%016x", sigOf(s, rec))
 	d.Nontrivial = inflight > 0 && d.Shared > 0
 
